@@ -235,6 +235,8 @@ class Run:
     def run_harness(self, h):
         d = self.scratch_for(h)
         mem = h.get("mem_gb", 6)
+        if os.environ.get("VERIF_DEV_MEMCAP"):
+            mem = int(os.environ["VERIF_DEV_MEMCAP"])
         timeout_s = h.get("timeout", 600)
         if os.environ.get("VERIF_DEV_CAP"):
             timeout_s = min(timeout_s, int(os.environ["VERIF_DEV_CAP"]))
@@ -244,15 +246,30 @@ class Run:
             rc, killed, wall, peak = run_capped(kani_cmd(h, os.path.join(d, "target")), d, timeout_s, mem, logfile)
             text = open(logfile, errors="replace").read()
             res = parse_kani_log(text)
-            if not killed and res["failed"]:
+            if not killed and res["failed"] and h.get("witness_from"):
+                res["playback"] = []
+            elif not killed and res["failed"]:
                 # second pass: same query with trace generation, to obtain the counterexample values
                 logfile2 = os.path.join(d, "logs", h["name"] + ".playback.log")
-                rc2, killed2, wall2, peak2 = run_capped(kani_cmd(h, os.path.join(d, "target"), playback=True), d, timeout_s, mem, logfile2)
+                # trace generation needs far more memory than the verdict itself
+                rc2, killed2, wall2, peak2 = run_capped(kani_cmd(h, os.path.join(d, "target"), playback=True), d, max(timeout_s, 1800),
+                                                        h.get("playback_mem_gb", max(mem, 30)), logfile2)
                 text2 = open(logfile2, errors="replace").read()
                 res2 = parse_kani_log(text2)
                 res["playback"] = res2["playback"]
                 wall += wall2
                 peak = max(peak, peak2)
+            if not killed and res["failed"]:
+                if not [p for p in res["playback"] if p["kind"] != "cover"] and h.get("witness_from"):
+                    # trace generation failed (memory): take the counterexample values from a cheaper
+                    # harness with the SAME sequence of kani::any() inputs and assumptions; they are then
+                    # replayed natively through THIS harness, so only a real failure of this harness counts
+                    wh = registry.by_name(h["witness_from"])
+                    logfile3 = os.path.join(d, "logs", h["name"] + ".witness.log")
+                    run_capped(kani_cmd(wh, os.path.join(d, "target"), playback=True), d, wh.get("timeout", 600), wh.get("mem_gb", 8), logfile3)
+                    res3 = parse_kani_log(open(logfile3, errors="replace").read())
+                    first_desc = res["failed"][0]["desc"]
+                    res["playback"] = [dict(p, desc=first_desc, via=wh["name"]) for p in res3["playback"] if p["kind"] != "cover"][:1]
         finally:
             self.sem.release(w)
         res.update({"name": h["name"], "rc": rc, "killed": killed, "wall_s": round(wall, 1), "peak_rss_gb": peak, "log": logfile})
@@ -262,6 +279,8 @@ class Run:
             res["class"] = "inconclusive"; res["why"] = f"timeout after {timeout_s}s"
         elif killed == "memory":
             res["class"] = "inconclusive"; res["why"] = f"memory cap {mem} GB exceeded"
+        elif "CBMC appears to have run out of memory" in text:
+            res["class"] = "inconclusive"; res["why"] = "CBMC ran out of memory"
         elif "Status: ERROR" in text:
             res["class"] = "inconclusive"; res["why"] = "CBMC reported Status: ERROR (resource exhaustion or internal error)"
         elif res["verdict"] is None:
